@@ -293,7 +293,17 @@ impl C20 {
             }
             bytes.extend_from_slice(vals[((idx / base.pow(i)) % base) as usize].as_bytes());
         }
-        bytes.extend_from_slice(b":\nG#L0,0,9,9:\nG#B2,2,6,6,0:\nG#P3,3:\nG#W1,1,x@\nG#s0:\n");
+        bytes.extend_from_slice(b":\nG#L0,0,9,9:\nG#B2,2,6,6,0:\nG#P3,3:\nG#W1,1,x@\n");
+        if len <= 3 {
+            // every drawing command whose behaviour depends on the state the first command may have left (fill
+            // attributes with border, hollow mode, drawing mode, line / marker type, colours, resolution, scaling):
+            // circles, ellipses, arcs, pie slices, rounded and filled rectangles, poly lines / fills, flood fill, line-to,
+            // each once with in-canvas and once with far-out-of-canvas sizes
+            bytes.extend_from_slice(b"G#O100,100,40:\nG#Q100,100,40,20:\nG#K100,100,40,0,90:\nG#J100,100,40,20,0,90:\nG#V100,100,40,0,90:\nG#Y100,100,40,20,0,90:\n");
+            bytes.extend_from_slice(b"G#U5,5,60,40,1:\nG#Z5,5,30,30:\nG#z3,1,1,30,5,9,40:\nG#f3,1,1,30,5,9,40:\nG#F20,20:\nG#D50,50:\n");
+            bytes.extend_from_slice(b"G#O100,100,9999:\nG#Q50,50,9999,3:\nG#Q50,50,3,9999:\nG#K10,10,9999,0,360:\nG#V10,10,9999,0,360:\nG#U0,0,9999,9999,1:\nG#F0,0:\n");
+        }
+        bytes.extend_from_slice(b"G#s0:\n");
         StreamCase {
             emu: "igs".into(),
             music: 0,
@@ -541,7 +551,7 @@ impl Prop for C20 {
         "C20"
     }
     fn rule(&self) -> &'static str {
-        "streams are fed character by character to the real RIPscrip (640x350 BGI canvas, file commands pointed at an empty scratch directory) and IGS (DrawExecutor) emulations under the panic monitor, the pixel work counter (budget 8*(n+2)*canvas), the virtual blocking monitor (any sleep > 0 ms raises) and, after every command terminator, an assertion that get_picture_data() returns width*height*4 bytes; pending IGS loop steps are drained through get_next_action. cases: (rip-uniform) every RIP level-0/1/9 command x parameter length 0..=24 x {all-0, all-1, all-Z} x 2 terminators; (rip-mixed) every command x every string over {0,1,Z} up to length 6; (igs-table) every IGS command x 0..=12 parameters x 7 value classes incl. negative and 2^31-1; (rip-pairs) every ordered pair of RIP commands, each with 24 parameter characters of one class {0,1,Z}: state command then drawing command; (igs-mixed) every IGS command x every parameter vector of length 0..=4 (thorough 5) over {0,1,2,3,40,9999} and of the next five lengths over {0,9999}, followed by a drawing probe; (random) seeded mixed/over-long/truncated parameter lists, continuation lines, text variables, loops with delays, chained commands on a random state prefix. distinct_nontrivial = distinct (emulation, stream head, result kinds, panicked, picture observed) fingerprints"
+        "streams are fed character by character to the real RIPscrip (640x350 BGI canvas, file commands pointed at an empty scratch directory) and IGS (DrawExecutor) emulations under the panic monitor, the pixel work counter (budget 8*(n+2)*canvas), the virtual blocking monitor (any sleep > 0 ms raises) and, after every command terminator, an assertion that get_picture_data() returns width*height*4 bytes; pending IGS loop steps are drained through get_next_action. cases: (rip-uniform) every RIP level-0/1/9 command x parameter length 0..=24 x {all-0, all-1, all-Z} x 2 terminators; (rip-mixed) every command x every string over {0,1,Z} up to length 6; (igs-table) every IGS command x 0..=12 parameters x 7 value classes incl. negative and 2^31-1; (rip-pairs) every ordered pair of RIP commands, each with 24 parameter characters of one class {0,1,Z}: state command then drawing command; (igs-mixed) every IGS command x every parameter vector of length 0..=4 (thorough 5) over {0,1,2,3,40,9999} and of the next five lengths over {0,9999}, followed by a drawing probe (line, box, marker, text; after vectors of length <= 3 also circle, ellipse, arcs, pie slices, rounded / filled rectangle, poly line / fill, flood fill and line-to, in-canvas and far out of canvas, so that border / hollow / mode / colour state set by the first command is used); (random) seeded mixed/over-long/truncated parameter lists, continuation lines, text variables, loops with delays, chained commands on a random state prefix. distinct_nontrivial = distinct (emulation, stream head, result kinds, panicked, picture observed) fingerprints"
     }
     fn meta(&self, _ctx: &Ctx) -> Value {
         json!({"floor_evaluations": 5000, "floor_distinct": 300, "watchdog_s": 60, "watchdog_is_violation": true, "plain_pass": "quick",
